@@ -457,3 +457,67 @@ func SortedKeys(m map[string]int64) []string {
 	sort.Strings(out)
 	return out
 }
+
+// OwnerSig names the field where Equal found a difference by the struct type that owns it:
+// ".From.Source.Left.Method: ..." on a tree rooted at root -> "Join.Method" (+ kind of difference).
+func OwnerSig(root any, diff string) string {
+	p := diff
+	if i := strings.Index(p, ": "); i >= 0 {
+		p = p[:i]
+	}
+	kind := ""
+	switch {
+	case strings.Contains(diff, "position presence"):
+		kind = " presence"
+	case strings.Contains(diff, "length"):
+		kind = " length"
+	case strings.Contains(diff, "nil vs non-nil"):
+		kind = " nil"
+	case strings.Contains(diff, "dynamic type"):
+		kind = " type"
+	}
+	if p == "<root>" {
+		return "<root>" + kind
+	}
+	v := reflect.ValueOf(root)
+	owner := ""
+	field := ""
+	i := 0
+	for i < len(p) {
+		for v.IsValid() && (v.Kind() == reflect.Ptr || v.Kind() == reflect.Interface) {
+			if v.IsNil() {
+				return owner + "." + field + kind
+			}
+			v = v.Elem()
+		}
+		switch p[i] {
+		case '.':
+			j := i + 1
+			for j < len(p) && p[j] != '.' && p[j] != '[' {
+				j++
+			}
+			name := p[i+1 : j]
+			if !v.IsValid() || v.Kind() != reflect.Struct {
+				return owner + "." + name + kind
+			}
+			owner, field = v.Type().Name(), name
+			v = v.FieldByName(name)
+			i = j
+		case '[':
+			j := strings.IndexByte(p[i:], ']')
+			if j < 0 {
+				return owner + "." + field + kind
+			}
+			idx, _ := strconv.Atoi(p[i+1 : i+j])
+			if v.IsValid() && v.Kind() == reflect.Slice && idx < v.Len() {
+				v = v.Index(idx)
+			} else {
+				return owner + "." + field + kind
+			}
+			i += j + 1
+		default:
+			return owner + "." + field + kind
+		}
+	}
+	return owner + "." + field + kind
+}
